@@ -96,6 +96,11 @@ let run_query ix = function
   | L [A "tf"; t] -> of_api of_nl (M.termfreqs ix (to_n t))
   | L [A "df"; t] -> of_api of_n (M.docfreq ix (to_n t))
   | L [A "pos"; t] -> of_api (of_list of_nl) (M.positions ix (to_n t))
+  | L [A "phrase"; ts] -> of_api of_nl (M.phrase_freqs ix (nl ts))
+  | L [A "strategy"; ts] ->
+      (match M.get_all_posts ix (nl ts) with
+       | M.AOk enc -> L [A "ok"; A (match M.choose_strategy enc with M.L2R -> "l2r" | M.R2L -> "r2l")]
+       | _ -> L [A "ok"; A "na"])
   | L [A "lens"] -> L [A "ok"; of_nl (M.doclengths ix)]
   | L [A "n"] -> L [A "ok"; of_n (M.corpus_size ix)]
   | L [A "total"] -> L [A "ok"; of_n (M.total_len ix)]
@@ -104,6 +109,7 @@ let spec_query docs = function
   | L [A "tf"; t] -> L [A "ok"; of_nl (M.tf_spec docs (to_n t))]
   | L [A "df"; t] -> L [A "ok"; of_n (M.df_spec docs (to_n t))]
   | L [A "pos"; t] -> L [A "ok"; of_list of_nl (M.positions_spec docs (to_n t))]
+  | L [A "phrase"; ts] -> L [A "ok"; L [of_nl (M.phrase_spec docs (nl ts)); of_nl (M.phrase_nonoverlap_spec docs (nl ts)); of_bool (M.no_adjacent_repeat (nl ts))]]
   | L [A "lens"] -> L [A "ok"; of_nl (M.lens_spec docs)]
   | L [A "n"] -> L [A "ok"; A (string_of_int (List.length docs))]
   | L [A "total"] -> L [A "ok"; of_n (M.total_spec docs)]
